@@ -177,3 +177,26 @@ Definition wobs_run (o : obs) (evs : list wsev) : obs := fold_left wobs_step evs
 Definition is_wclose (e : wsev) : bool := match e with WSessClose _ => true | _ => false end.
 Definition count_wclose (evs : list wsev) : nat := length (filter is_wclose evs).
 Definition is_wopen (i : wsin) : bool := match i with WOpen _ => true | _ => false end.
+
+(* ------------------------------------------------------------------------------------------------------------- *)
+(* asyncio/websocket.py WebSocketAdapterProtocol: the receive queue between the asyncio transport and the engine   *)
+(* ------------------------------------------------------------------------------------------------------------- *)
+(* data_received(data): self.receive_queue.<push>(data); wake the waiter.   The waiter callback runs in a LATER loop
+   iteration: while self.receive_queue: data = self.receive_queue.<pop>(); self._dataReceived(data).
+   Which end is pushed / popped is read from the source on every run (gen_aio_ws_push_back / gen_aio_ws_pop_front). *)
+Inductive adin := ARecv (d : list N) | ATurn.
+Definition q_push (q : list (list N)) (d : list N) : list (list N) := if gen_aio_ws_push_back then q ++ [d] else d :: q.
+Definition q_drain (q : list (list N)) : list (list N) := if gen_aio_ws_pop_front then q else rev q.
+(* state: the deque (front first); output: the segments handed to _dataReceived, in that order *)
+Definition adapter_step (q : list (list N)) (i : adin) : list (list N) * list (list N) :=
+  match i with
+  | ARecv d => (q_push q d, [])
+  | ATurn => ([], q_drain q)
+  end.
+Fixpoint adapter_run (q : list (list N)) (ins : list adin) : list (list N) * list (list N) :=
+  match ins with
+  | [] => (q, [])
+  | i :: r => let '(q1, o1) := adapter_step q i in let '(q2, o2) := adapter_run q1 r in (q2, o1 ++ o2)
+  end.
+Fixpoint received (ins : list adin) : list (list N) :=
+  match ins with [] => [] | ARecv d :: r => d :: received r | ATurn :: r => received r end.
